@@ -151,10 +151,10 @@ def _worker(items) -> dict:
             for k in range(reps if has_literal(T) else 1):
                 hk = hint(T, variant, k)
                 if (len(tjson) + variant + k) % 2:
-                    base = Retort(strict_coercion=False)
+                    base = Retort(strict_coercion=False, recipe=gamma.user_recipe())
                     rs = {(s, dt.name): base.replace(strict_coercion=s, debug_trail=dt) for s in (False, True) for dt in modes()}
                 else:
-                    rs = {(s, dt.name): Retort(strict_coercion=s, debug_trail=dt) for s in (False, True) for dt in modes()}
+                    rs = {(s, dt.name): Retort(strict_coercion=s, debug_trail=dt, recipe=gamma.user_recipe()) for s in (False, True) for dt in modes()}
                 fns_by_k[k] = {key: (r.get_dumper(hk), r.get_loader(hk)) for key, r in rs.items()}
         except Exception as e:  # noqa: BLE001
             out["creation_failed"].append({"type": type_str(T), "exc": repr(e)[:300]})
@@ -197,6 +197,12 @@ def run_dump_sweep(ctx: Ctx, profile_name: Optional[str] = None) -> dict:
                 groups[line[8:end].decode()].append((off, ln - 1))
             off += ln
     tjsons = {tk: json.loads('"' + tk + '"') for tk in groups}
+    # "for every value x": also in a process whose local time zone is not UTC (a POSIX TZ string needs no zone database); the
+    # documented forms are zone independent, so nothing may change
+    import os
+    import time
+    os.environ["TZ"] = "EST5EDT" if ctx.seed % 2 == 0 else "JST-9"
+    time.tzset()
     items = []
     variant = ctx.seed % 2
     for tk, spans in groups.items():
@@ -227,10 +233,10 @@ def report_dump(ctx: Ctx, sweep: dict, cat: str) -> None:
     fs = sorted(sweep["total"][cat], key=lambda f: (f["size"], json.dumps(f["sig"], sort_keys=True)))
     for f in fs:
         T = f["T"]
-        src = ("# stand-alone reproduction (run with PYTHONPATH=/repo/src:/verif)\nimport json\nfrom adaptix import Retort, DebugTrail\n"
+        src = ("# stand-alone reproduction (run with PYTHONPATH=/repo/src:/verif)\nimport json\nfrom adaptix import Retort, DebugTrail\nfrom vf import gamma\n"
                "from vf.gamma import hint, Node\n"
                f"T = json.loads({json.dumps(json.dumps(T))})\nv = json.loads({json.dumps(json.dumps(f['d']))})\n"
-               f"for dt in DebugTrail:\n    r = Retort(strict_coercion={f['strict']}, debug_trail=dt)\n    x = Node(v, {f['k']}).make()\n"
+               f"for dt in DebugTrail:\n    r = Retort(strict_coercion={f['strict']}, debug_trail=dt, recipe=gamma.user_recipe())\n    x = Node(v, {f['k']}).make()\n"
                f"    d = r.dump(x, hint(T, 0, {f['k']}))\n    print(dt.name, repr(x), '->', repr(d), '->', repr(r.load(d, hint(T, 0, {f['k']}))))\n")
         ctx.violation(f["sig"], f"{f['sig']['what']}: {type_str(T)} value {data_str(f['d'])} strict={f['strict']}: {f['detail'][:170]}",
                       {"category": cat, "T": T, "v": f["d"], "rep": f["k"], "documented_outer_form": f["model"], "modes": sorted(f["dts"]),
